@@ -7,7 +7,7 @@ Nothing here decides a verdict.  Projections only:
   * which variables carry attributes netCDF cannot store (tested by storing them),
   * the encoded dataset as an "E-record" (raw integer tables + position ids), decoded later by
     TLA+ following each FORMAT's conventions (independent of the library's readers),
-  * faces of a Grid as cycles of position ids (nearest catalogue node, 1e-8 chord tolerance).
+  * faces of a Grid as cycles of position ids (nearest source node, 1e-9 chord tolerance).
 """
 
 from __future__ import annotations
@@ -114,27 +114,56 @@ def strip_faces(sizes):
     return faces, where
 
 
-def strip_entry(sizes, rng):
+def _frame(p, spin):
+    """Right-handed orthonormal frame whose first axis is p; `spin` turns the other two about p."""
+    p = np.asarray(p, float)
+    p = p / np.linalg.norm(p)
+    h = np.array([0.0, 0.0, 1.0]) if abs(p[2]) < 0.9 else np.array([1.0, 0.0, 0.0])
+    u = np.cross(p, h)
+    u /= np.linalg.norm(u)
+    v = np.cross(p, u)
+    c, s_ = math.cos(spin), math.sin(spin)
+    return np.stack([p, c * u + s_ * v, -s_ * u + c * v], axis=1)
+
+
+def place_target(place, rng):
+    """Where node 0 goes: `off` micro-degrees from the anchor TLC chose."""
+    off = place["off"] * 1e-6
+    a = place["anchor"]
+    if a == "npole" or a == "spole":
+        th, ph = math.radians(off), math.radians(rng.choice([0.0, 137.0, -90.0]))
+        z = math.cos(th) if a == "npole" else -math.cos(th)
+        if off == 0:
+            return (0.0, 0.0, z)
+        return (math.sin(th) * math.cos(ph), math.sin(th) * math.sin(ph), z)
+    if a == "amer_east":
+        return lattice.xyz_of_lonlat_deg(180.0 - off, rng.choice([0.0, 25.0, -40.0]))
+    if a == "amer_west":
+        return lattice.xyz_of_lonlat_deg(-180.0 + off, rng.choice([0.0, 25.0, -40.0]))
+    return lattice.xyz_of_lonlat_deg(40.0, 35.0)
+
+
+def strip_entry(sizes, rng, place=None):
     """Coordinates for a strip mesh: all nodes lie on the boundary of a lens (bottom chain on a convex,
     top chain on a concave parabola in lon/lat), so every face is strictly convex and counter-clockwise;
-    the patch is then moved to one of a few places on the sphere (poles, antimeridian, ...)."""
+    the patch is then turned rigidly so that node 0 sits exactly where the generated `place` says
+    (at / near a pole, at / near the antimeridian, mid-latitudes), with a random spin about that node."""
     faces, where = strip_faces(sizes)
     F = len(sizes)
     W = min(50.0, 14.0 * F)
     a = 3.0 / (W / 2) ** 2
-    lon0, lat0 = STRIP_CENTRES[rng.randrange(len(STRIP_CENTRES))]
-    cl, sl = math.cos(math.radians(lat0)), math.sin(math.radians(lat0))
-    co, so = math.cos(math.radians(lon0)), math.sin(math.radians(lon0))
-    xyz = []
+    local = []
     for v in range(len(where)):
         chain, u = where[v]
         x = -W / 2 + W * u / F
         y = (-8.0 + a * x * x) if chain == "b" else (8.0 - a * x * x)
-        px, py, pz = lattice.xyz_of_lonlat_deg(x, y)
-        # rotate about y by -lat0 (lifts the centre to latitude lat0), then about z by lon0
-        qx, qy, qz = cl * px - sl * pz, py, sl * px + cl * pz
-        xyz.append((co * qx - so * qy, so * qx + co * qy, qz))
-    return {"xyz": xyz, "faces": faces, "name": "strip%s@%d,%d" % ("-".join(map(str, sizes)), lon0, lat0)}
+        local.append(lattice.xyz_of_lonlat_deg(x, y))
+    place = place or {"anchor": "mid", "off": 0}
+    T = place_target(place, rng)
+    R = _frame(T, rng.uniform(0.0, 2 * math.pi)) @ _frame(local[0], 0.0).T
+    xyz = [tuple(float(c) for c in (R @ np.asarray(p))) for p in local]
+    xyz[0] = tuple(float(c) for c in T)  # exactly the generated position (the rotation is exact to rounding only)
+    return {"xyz": xyz, "faces": faces, "name": "strip%s@%s%+gdeg" % ("-".join(map(str, sizes)), place["anchor"], place["off"] * 1e-6)}
 
 
 def entry_lonlat(entry):
@@ -212,7 +241,7 @@ def build_grid(entry, route, scratch=None):
 class Positions:
     """Position ids = indices of the catalogue nodes (distinct directions)."""
 
-    def __init__(self, unit_vectors, tol=1e-8):
+    def __init__(self, unit_vectors, tol=1e-9):
         self.U = np.array(unit_vectors, dtype=float).reshape(-1, 3)
         self.tol = tol
 
